@@ -6,7 +6,12 @@ ok=0; bad=0
 for d in seeded/*/; do
   n=$(basename $d)
   [[ -n "${1:-}" && "$n" != *"$1"* ]] && continue
-  ids=$(python3 -c "import json;print(' '.join(json.load(open('$d/meta.json'))['detected_by'].keys()))")
+  # FAST=1: one check per seed (the first listed, but not C01 / C05 when another one is listed too)
+  if [ -n "${FAST:-}" ]; then
+    ids=$(python3 -c "import json;k=list(json.load(open('$d/meta.json'))['detected_by'].keys());q=[x for x in k if x not in ('C01','C05')];print((q or k)[0])")
+  else
+    ids=$(python3 -c "import json;print(' '.join(json.load(open('$d/meta.json'))['detected_by'].keys()))")
+  fi
   res=$(tools/seedcheck.sh /verif/${d}patch.diff $ids 2>&1 | grep "^==" | awk '{print $2"="$3}' | tr '\n' ' ')
   if [ -z "$res" ]; then echo "ERROR   $n :: seedcheck produced no result (patch does not apply?)"; bad=$((bad+1)); continue; fi
   if echo "$res" | grep -q "exit=0\|exit=2" ; then echo "MISSED  $n :: $res"; bad=$((bad+1)); else echo "caught  $n :: $res"; ok=$((ok+1)); fi
